@@ -230,6 +230,62 @@ def centre_sets_leaf(ctx, lentil, rng):
     return n
 
 
+def narrow_grid_leaf(ctx, lentil, rng):
+    """a wavelength grid (or a set of bin centres) held in half / single precision, every value exactly representable, is the same grid:
+    crop keeps the same samples, integrate and trim give what the float64 twin gives, bins have the same edges"""
+    import warnings
+    n = 0
+    S = lentil.radiometry.Spectrum
+    for gdt in (np.float16, np.float32):
+        for _ in range(6):
+            g0 = rng.choice((640.0, 500.0, 1100.0))
+            grid = g0 + 0.5 * np.arange(40)
+            if not np.array_equal(grid.astype(gdt).astype(float), grid):
+                continue
+            vals = 1.0 + (np.arange(40) % 7) * 0.25
+            lo, hi = g0 + 5.2, g0 + 10.3                           # bounds that are NOT representable in half precision near 640
+            a, b = S(grid.astype(gdt), vals.copy(), waveunit='nm', valueunit=None), S(grid.copy(), vals.copy(), waveunit='nm', valueunit=None)
+            n += 1
+            ctx.case(('narrow-grid', np.dtype(gdt).name, g0))
+            with warnings.catch_warnings():
+                warnings.simplefilter('ignore')
+                ia, ib = [a.integrate(lo, hi, method=m_) for m_ in ('trapz', 'simps')], [b.integrate(lo, hi, method=m_) for m_ in ('trapz', 'simps')]
+                fa, fb = a.integrate(method='trapz'), b.integrate(method='trapz')
+                a.crop(lo, hi)
+                b.crop(lo, hi)
+            ok = np.allclose(ia, ib, rtol=1e-12) and abs(fa - fb) <= 1e-12 * abs(fb) and len(np.atleast_1d(a.wave)) == len(np.atleast_1d(b.wave)) and \
+                np.array_equal(np.asarray(a.wave, dtype=float), b.wave)
+            if not ok:
+                ctx.violation({'kind': 'grid-storage-type-changes-the-result', 'dtype': np.dtype(gdt).name},
+                              {'bounds': [lo, hi], 'integrals': [ia, ib], 'kept': [np.asarray(a.wave, dtype=float).tolist(), b.wave.tolist()]}, case=None)
+        # trim: the ratio to the maximum is compared with the tolerance in double precision
+        vt = np.array([0, 1.000977, 10008, 3, 0], dtype=np.float16)
+        for tol in (1e-4, 1e-3):
+            sa, sb = S(np.arange(500., 505.), vt.astype(gdt), waveunit='nm', valueunit=None), S(np.arange(500., 505.), vt.astype(float), waveunit='nm', valueunit=None)
+            sa.trim(tol)
+            sb.trim(tol)
+            n += 1
+            ctx.case(('narrow-values-trim', np.dtype(gdt).name, tol))
+            if not np.array_equal(np.asarray(sa.wave, dtype=float), sb.wave):
+                ctx.violation({'kind': 'grid-storage-type-changes-the-result', 'dtype': np.dtype(gdt).name, 'op': 'trim'}, {'tol': tol}, case=None)
+        # bin centres in a narrow float type
+        for cs in (np.array([500.125, 500.25, 500.375, 500.5, 500.625]), np.array([1100., 1101., 1102., 1103.])):
+            if not np.array_equal(cs.astype(gdt).astype(float), cs):
+                continue
+            wv = np.arange(400., 1300., 0.125) if cs[0] < 1000 else np.arange(1000., 1300., 0.25)
+            sl = S(wv, 0.01 * wv, waveunit='nm', valueunit=None)
+            for m_ in ('trapz', 'simps'):
+                for ends in ('symmetric', 'inside'):
+                    n += 1
+                    ctx.case(('narrow-centres', np.dtype(gdt).name, m_, ends, float(cs[0])))
+                    ba = np.asarray(sl.bin(cs.astype(gdt), interp_method=m_, ends=ends, preserve_power=False, waveunit='nm'), dtype=float)
+                    bb = np.asarray(sl.bin(cs, interp_method=m_, ends=ends, preserve_power=False, waveunit='nm'), dtype=float)
+                    if ba.shape != bb.shape or not np.allclose(ba, bb, rtol=1e-12, atol=0):
+                        ctx.violation({'kind': 'bin-centres-storage-type-changes-the-bins', 'dtype': np.dtype(gdt).name, 'method': m_, 'ends': ends},
+                                      {'centres': cs.tolist(), 'float64': bb, 'observed': ba}, case=None)
+    return n
+
+
 def one_sample_leaf(ctx, lentil, rng):
     """a spectrum cropped / trimmed down to ONE sample keeps that sample under resample, in whatever type its numbers are stored"""
     import warnings
@@ -394,6 +450,7 @@ def run(ctx):
     q = ctx.tier == 'quick'
     ncases = integration_and_binning(ctx, lentil, rng)
     ctx.extra['one_sample_resample_cases'] = one_sample_leaf(ctx, lentil, rng)
+    ctx.extra['narrow_grid_cases'] = narrow_grid_leaf(ctx, lentil, rng)
     ctx.extra['non_uniform_centre_set_cases'] = centre_sets_leaf(ctx, lentil, rng)
     events, offl = record_programs(lentil, rng, 400 if q else 4000, 4)
     bad = validate(ctx, events)
